@@ -56,6 +56,30 @@ TRUSTED_BASE_COMMON = [
 ]
 
 
+class build_lock:
+    """one build at a time in the shared trees (coq/, ocaml/, harness/bin): checks may be started side by side.
+    Re-entrant within a process."""
+    depth = 0
+    f = None
+
+    def __enter__(self):
+        import fcntl
+        if build_lock.depth == 0:
+            os.makedirs(os.path.join(VERIF, "work"), exist_ok=True)
+            build_lock.f = open(os.path.join(VERIF, "work", ".build.lock"), "w")
+            fcntl.flock(build_lock.f, fcntl.LOCK_EX)
+        build_lock.depth += 1
+        return self
+
+    def __exit__(self, *a):
+        import fcntl
+        build_lock.depth -= 1
+        if build_lock.depth == 0:
+            fcntl.flock(build_lock.f, fcntl.LOCK_UN)
+            build_lock.f.close()
+            build_lock.f = None
+
+
 def sh(cmd, timeout=600, cwd=None, env=None, input=None):
     """run a shell command; returns (rc, combined output). rc 124 on timeout."""
     try:
@@ -86,17 +110,22 @@ class Check:
     # ---------------------------------------------------------------- Coq
     def coq_build(self, targets):
         """build the .vo closure of the given targets (paths relative to coq/)"""
-        rc, out = sh("./mkproject.sh", cwd=COQ, timeout=120)
-        if rc != 0:
-            return False, out
-        vos = " ".join(t[:-2] + ".vo" if t.endswith(".v") else t for t in targets)
-        rc, out = sh("timeout 1500 make -j16 %s" % vos, cwd=COQ, timeout=1600)
-        return rc == 0, out
+        with build_lock():
+            rc, out = sh("./mkproject.sh", cwd=COQ, timeout=120)
+            if rc != 0:
+                return False, out
+            vos = " ".join(t[:-2] + ".vo" if t.endswith(".v") else t for t in targets)
+            rc, out = sh("timeout 1500 make -j16 %s" % vos, cwd=COQ, timeout=1600)
+            return rc == 0, out
 
     def coq_props(self, props_file, extra_targets=()):
         """compile the property file (and the source-facts obligations that belong to this property,
         after regenerating their tables from the repository's current source) and parse the
         Print Assumptions output."""
+        with build_lock():
+            return self._coq_props(props_file, extra_targets)
+
+    def _coq_props(self, props_file, extra_targets=()):
         import facts
         fact_files = list(facts.FACTS_FOR.get(self.pid, []))
         if fact_files:
@@ -157,7 +186,8 @@ class Check:
         return rc == 0, out[-2500:]
 
     def ocaml_build(self, model, driver, outname):
-        rc, out = sh("./build.sh %s %s %s" % (model, driver, outname), cwd=os.path.join(VERIF, "ocaml"), timeout=600)
+        with build_lock():
+            rc, out = sh("./build.sh %s %s %s" % (model, driver, outname), cwd=os.path.join(VERIF, "ocaml"), timeout=600)
         if rc != 0:
             self.broken.append("OCaml build of %s: %s" % (outname, out[-800:]))
         return rc == 0, out
@@ -173,7 +203,9 @@ class Check:
         env = dict(self.env)
         if race:
             env["CGO_ENABLED"] = "1"
-        rc, out = sh("go build %s -tags verif -o %s ." % ("-race" if race else "", binname), cwd=h, env=env, timeout=900)
+        with build_lock():
+            rc, out = sh("go build %s -tags verif -o %s.new . && mv -f %s.new %s" % ("-race" if race else "", binname, binname, binname),
+                         cwd=h, env=env, timeout=900)
         if rc != 0:
             self.broken.append("harness does not build against /repo (go build -tags verif): %s" % out[-1500:])
         return rc == 0, out
